@@ -120,11 +120,11 @@ def run(tier, seed):
     if meta:
         rep.sample(meta[0]); rep.sample(meta[len(meta) // 2])
     tie_broken = []
-    if proof['ok']:
+    if proof['ok'] or proof['extra_ok']:
         f = common.run_cases(PID, 'sym', PRE, cases, 'scase_ok', shard=500)
         if f:
             tie_broken.append('get_symbols model differs from the implementation on %d signatures, first: %r' % (len(f), meta[f[0]]))
-    else:
+    if not proof['ok']:
         tie_broken.append('theorem file does not build: %s' % proof['failed_at'])
     if proof['bad']:
         tie_broken.append('forbidden tokens: %r' % proof['bad'])
